@@ -34,6 +34,7 @@ func init() {
 }
 
 func runC33(c *core.Ctx) {
+	accessorPairs(c, "C33.accessor-keys", 16, pkNM, pkRM, "native/service/governance/neo3_state_manager", "native/service/governance/signature_manager")
 	ccs := eng.Obj(c, pkNM, "CheckConsensusSigns")
 	if ccs == nil {
 		return
